@@ -110,6 +110,9 @@ static inline const void *get_field_ptr(flatcc_json_printer_table_descriptor_t *
         *ctx->p++ = '\n';                                                   \
         --ctx->level;                                                       \
         print_indent(ctx);                                                  \
+    } else {                                                                \
+        /* A run of closing brackets can be longer than the reserve. */     \
+        flatcc_json_printer_flush_partial(ctx);                             \
     }                                                                       \
     *ctx->p++ = c;                                                          \
 } while (0)
